@@ -12,8 +12,9 @@
    (N) would-block refusals only for non-blocking requests; a non-blocking request never waits
    (K) held means held: while a thread holds p, the kernel table shows its process
        holding p at least as strongly
-   (W) no lost wake-up: in a terminal state every unfinished thread is waiting for a
-       conflicting hold (directly, or queued behind a justified conflicting request)
+   (W) no lost wake-up: in a terminal state -- and whenever all runnable threads are in user
+       code (Quiet) -- every thread waiting inside an acquire is waiting for a conflicting hold
+       (directly, or queued behind a justified conflicting request)
    (Q) when everybody has finished nothing is left: pools, descriptors, kernel locks *)
 EXTENDS Naturals, Sequences, FiniteSets, TLC
 
@@ -87,6 +88,10 @@ Terminal(stuck, residue) ==
     /\ stuck = {} => residue = 0                                             \* (Q)
     /\ stuck \subseteq Justified                                             \* (W)
     /\ UNCHANGED absvars
+
+\* all runnable threads are in user code; `blocked` = threads waiting inside an acquire
+Quiet(blocked) == /\ blocked \subseteq Justified                                \* (W')
+                  /\ UNCHANGED absvars
 
 \* ---- (K): k is the observed kernel table, a set of <<path, proc, mode>>
 Strong(m) == IF m = "EX" THEN 2 ELSE IF m = "SH" THEN 1 ELSE 0
